@@ -162,10 +162,17 @@ pub enum Outcome {
 }
 
 /// run the library under the draw hook
+/// the index maps of the game of the latest `run_lib` (for the mutex labels of that run)
+pub static LAST_MAPS: std::sync::Mutex<IndexMaps> = std::sync::Mutex::new(IndexMaps { to_canon: [Vec::new(), Vec::new(), Vec::new()] });
+
 pub fn run_lib(g: &G, c: &Cfg) -> Outcome {
     let seed = c.seed;
     cfr::verif::set_observe(false);
-    cfr::verif::set_draw_hook(Some(Box::new(move |kind, id, pass, ws| draw_hash(seed, kind, id, pass, ws))));
+    // draws are keyed by canonical infoset indices (see `IndexMaps`)
+    let maps = IndexMaps::of_dump(&g.verif_dump());
+    *LAST_MAPS.lock().unwrap() = maps.clone();
+    let hook_maps = maps.clone();
+    cfr::verif::set_draw_hook(Some(Box::new(move |kind, id, pass, ws| draw_hash(seed, kind, hook_maps.canon(kind, id), pass, ws))));
     let _ = cfr::verif::take_log();
     let r = catch_unwind(AssertUnwindSafe(|| {
         let params = c.params.to_lib();
@@ -189,7 +196,10 @@ pub fn run_lib(g: &G, c: &Cfg) -> Outcome {
         }
     }));
     cfr::verif::set_draw_hook(None);
-    let log = cfr::verif::take_log();
+    let mut log = cfr::verif::take_log();
+    for rec in log.iter_mut() {
+        rec.id = maps.canon(rec.kind, rec.id);
+    }
     match r {
         Ok(Ok((named, bounds, total))) => Outcome::Ok(Res { named, bounds, total, log }),
         Ok(Err(e)) => Outcome::Err(e),
@@ -516,7 +526,16 @@ pub fn case_solve(ctx: &mut Ctx, case: &Value) {
                 let mut tk = Toks::new(&dump);
                 tk.tok();
                 let nc = tk.nat();
-                let probs: Vec<Vec<f64>> = (0..nc).map(|_| { let k = tk.nat(); (0..k).map(|_| tk.f()).collect() }).collect();
+                let probs_internal: Vec<Vec<f64>> = (0..nc).map(|_| { let k = tk.nat(); (0..k).map(|_| tk.f()).collect() }).collect();
+                // the log is in canonical indices
+                let maps = IndexMaps::of_dump(&dump);
+                let mut probs: Vec<Vec<f64>> = vec![Vec::new(); probs_internal.len()];
+                for (i, p) in probs_internal.into_iter().enumerate() {
+                    let c = maps.canon(0, i);
+                    if c < probs.len() {
+                        probs[c] = p;
+                    }
+                }
                 for (k, (r, ws)) in &m {
                     if *r >= ws.len() {
                         ctx.fail_prop(case, format!("draw {:?} returned index {} of {}", k, r, ws.len()));
